@@ -1,4 +1,5 @@
 """Layer B helpers: bounded runs through the in-process expander (real generator code, executed natively)."""
+import re
 import refmodel as R
 
 ENTRY_ITEMS = {"Eq": 2}   # an accepted Eq entry emits the impl and the `const _` checker
@@ -39,8 +40,65 @@ PLACEMENTS = {
 }
 
 
+def take_qualified_attr(tokens):
+    """(args, rest) if the re-emitted item still starts with a derive_ex attribute macro (bare or crate path), else None (token text from the expander)"""
+    # inert attributes (lints, docs, ..) in front of it stay on the item: rustc expands the first attribute *macro*, wherever it stands
+    lead = ""
+    while True:
+        m = re.match(r"\s*#\s*\[\s*(?:(?:::\s*)?derive_ex\s*::\s*)?derive_ex\s*\(", tokens)
+        if m:
+            break
+        m0 = re.match(r"\s*#\s*\[", tokens)
+        if not m0:
+            return None
+        i, depth = m0.end(), 1
+        while i < len(tokens) and depth:
+            depth += {"[": 1, "]": -1}.get(tokens[i], 0)
+            i += 1
+        if depth:
+            return None
+        lead, tokens = lead + tokens[:i] + " ", tokens[i:]
+    i = m.end()
+    depth = 1
+    while i < len(tokens) and depth:
+        depth += {"(": 1, ")": -1}.get(tokens[i], 0)
+        i += 1
+    m2 = re.match(r"\s*\]", tokens[i:])
+    if depth or not m2:
+        return None
+    return tokens[m.end():i - 1], lead + tokens[i + m2.end():]
+
+
+
+SPLIT_SPELLINGS = {"attr_split_bare": "derive_ex", "attr_split_path": "derive_ex::derive_ex", "attr_split_abs": "::derive_ex::derive_ex"}
+
+
+def expand_rustc(ex, args, item, fuel=6):
+    """attribute macros expand outside-in: the first derive_ex attribute runs; if the item it re-emits still carries a derive_ex attribute
+    macro (bare or written with the crate path, inert attributes in front of it skipped) that one is expanded next (in-process emulation of
+    rustc's expansion loop). Returns a result shaped like one expansion: the final item followed by all generated items, in order."""
+    gen, outs = [], []
+    while fuel:
+        fuel -= 1
+        r = ex.attr(args, item)
+        if r["status"] != "ok" or not r.get("items"):
+            return r
+        gen += r["items"][1:]
+        outs.append(r.get("out", ""))
+        nxt = take_qualified_attr(r["items"][0]["tokens"])
+        if nxt is None:
+            return {"status": "ok", "items": [r["items"][0]] + gen, "out": "\n".join(outs)}
+        args, item = nxt
+    return {"status": "crash", "note": "expansion loop did not end"}
+
+
 def expand(ex, entry, traits, item):
     lst = ", ".join(traits)
+    if entry in SPLIT_SPELLINGS and len(traits) > 1:
+        # the list split over stacked attributes: first trait in the invoking attribute, the rest in a sibling (one request, by the documentation)
+        return expand_rustc(ex, traits[0], "#[%s(%s)] %s" % (SPLIT_SPELLINGS[entry], ", ".join(traits[1:]), item)), True
+    if entry in SPLIT_SPELLINGS:
+        entry = "attr"
     if entry == "attr":
         r = ex.attr(lst, item)
         has_item = True
